@@ -142,6 +142,8 @@ CALLS = [
     ('lift add eax,ebx', lambda c: lift(c, '01d8')),
     ('lift push eax', lambda c: lift(c, '50')),
     ('lift pushad (raises)', lambda c: lift(c, '6660')),
+    ('lift 268b00 (es: override)', lambda c: lift(c, '268b00')),
+    ('lift a5 (movsd through es:edi)', lambda c: lift(c, 'a5')),
     ('lift mov ah,ah', lambda c: lift(c, '88e4')),
     ('simp shared eax+0', lambda c: str(c.H.expr_simp(shared_expr(c, 'e_add0')))),
     ('simp shared compose of slices', lambda c: str(c.H.expr_simp(shared_expr(c, 'e_compose')))),
@@ -482,6 +484,66 @@ def shard_inputs(s, ns, tier, seed):
 
 
 # ---------------------------------------------------------------------------
+# reads do not change a machine: on ONE machine, a sequence of loads (pure) and stores (documented state changes) must
+# leave the same answers as the same sequence with the loads removed
+
+MOPS = [('load @32[esp]', (0, 32), True), ('load @16[esp+2]', (2, 16), True), ('load @8[esp+1]', (1, 8), True), ('load @32[esp+2]', (2, 32), True),
+        ('store @16[esp+2]', '66c74424023412', False), ('store @32[esp]', 'c7042478563412', False), ('store @8[esp+3]', 'c6442403ab', False),
+        ('store @32[esi]', '8906', False)]
+
+
+def machine_run(c, seq):
+    m = c.eh.x86_machine()
+    outs = []
+    with core.quiet_stdout():
+        for i in seq:
+            try:
+                if MOPS[i][2]:          # a read through the evaluation API: no documented effect on the machine
+                    off, w = MOPS[i][1]
+                    m.eval_expr(c.X.ExprMem(c.sem.esp + c.X.ExprInt32(off) if off else c.sem.esp, w), {})
+                else:
+                    c.eh.emul_lines(m, [c.ia32.x86mnemo.dis(bytes.fromhex(MOPS[i][1]))])
+                outs.append('ok')
+            except Exception as ex:
+                outs.append('EXC:%s' % type(ex).__name__)
+        probes = []
+        for ad, w in ((c.sem.esp, 32), (c.sem.esp + c.X.ExprInt32(2), 16), (c.sem.esp + c.X.ExprInt32(1), 8), (c.sem.esi, 32), (c.sem.esp, 16)):
+            try:
+                probes.append(str(m.eval_expr(c.X.ExprMem(ad, w), {})))
+            except Exception as ex:
+                probes.append('EXC:%s' % type(ex).__name__)
+    return outs, probes, dump(m)
+
+
+def shard_machine_reads(s, ns, tier, seed):
+    c = make_ctx()
+    part = core.Part()
+    depth = 3 if tier == 'quick' else 4
+    k = 0
+    for d in range(2, depth + 1):
+        for seq in itertools.product(range(len(MOPS)), repeat=d):
+            if not any(MOPS[i][2] for i in seq) or not any(not MOPS[i][2] for i in seq):
+                continue
+            k += 1
+            if k % ns != s:
+                continue
+            stores_only = tuple(i for i in seq if not MOPS[i][2])
+            o1, p1, d1 = core.isolated(machine_run, c, seq)
+            o2, p2, d2 = core.isolated(machine_run, c, stores_only)
+            part.n += 1
+            part.transitions += len(seq)
+            part.traces += 1
+            if (p1, [d for d in d1[1]]) == (p2, [d for d in d2[1]]) or any(o.startswith('EXC') for o in o1 + o2):
+                part.keys.add(core.h64(('mr', seq)))
+            else:
+                loads = sorted(set(MOPS[i][0] for i in seq if MOPS[i][2]))
+                part.violation('machine-read-purity loads=[%s] stores=[%s]' % (' ; '.join(loads), ' ; '.join(MOPS[i][0] for i in stores_only)),
+                               'after %s the machine answers %s (memory %s); with the loads left out it answers %s (memory %s)' % (
+                                   [MOPS[i][0] for i in seq], p1, d1[1], p2, d2[1]), {'mseq': list(seq)}, size=len(seq))
+    return part
+
+
+# ---------------------------------------------------------------------------
 # assembler call pairs: every ordered pair (L1, L2) of a line alphabet in which mnemonics that treat an operand
 # differently share the SAME operand text (memo / shared-dict leaks between parses)
 
@@ -743,6 +805,9 @@ def run(tier, seed):
     part.states += len(seen)
     pi = core.run_sharded(shard_inputs, (tier, seed), nshards=core.NPROC * 2)
     pa = core.run_sharded(shard_asm_pairs, (tier, seed), nshards=core.NPROC * 4)
+    pm = core.run_sharded(shard_machine_reads, (tier, seed), nshards=core.NPROC * 2)
+    part.counters['machine_read_sequences'] = pm.n
+    part.merge(pm)
     part.counters['asm_pairs'] = pa.n
     part.merge(pa)
     part.counters['input_immutability_cases'] = pi.n
@@ -772,6 +837,11 @@ def replay(w):
         _, _, res = fork_history(c, tuple(w['history']), probes)
         bad = base[w['probe']] != res[w['probe']]
         return bad, 'probe %r: pristine %s ; after %s: %s' % (CALLS[w['probe']][0], base[w['probe']][:200], [CALLS[i][0] for i in w['history']], res[w['probe']][:200])
+    if 'mseq' in w:
+        seq = tuple(w['mseq'])
+        o1, p1, d1 = core.isolated(machine_run, c, seq)
+        o2, p2, d2 = core.isolated(machine_run, c, tuple(i for i in seq if not MOPS[i][2]))
+        return (p1, d1[1]) != (p2, d2[1]), 'with loads: %s ; without: %s' % (p1, p2)
     if 'pair' in w:
         l1, l2 = w['pair']
         b = _forked(lambda: asm_line(c, l2))
